@@ -192,6 +192,12 @@ func (c *Ctx) effects() (*Eff, error) {
 			return load.IsModule(pk) || strings.HasPrefix(pk, load.DicomPath)
 		},
 	}
+	// The caller's PixelData implementation is outside the codec: calls through the PixelData
+	// interface are summarised (ExtInvoke), their implementations are not entered.
+	cfg.SkipEdge = func(site ssa.CallInstruction, callee *ssa.Function) bool {
+		cc := site.Common()
+		return cc.IsInvoke() && isDicomInterface(cc.Value.Type(), "PixelData")
+	}
 	a := pta.New(cfg)
 	a.Trace = c.Dump != ""
 	e.A = a
